@@ -13,6 +13,7 @@ import (
 	"crypto/sha1"
 	"encoding/base64"
 	"fmt"
+	"strings"
 	"time"
 
 	"github.com/beevik/etree"
@@ -585,4 +586,62 @@ func EncryptAssertion(plain []byte, e *EncSpec) (*etree.Element, error) {
 		ea.AddChild(ed)
 	}
 	return ea, nil
+}
+
+// DecryptAssertion is the independent (standard library only) inverse of what a
+// conforming IdP emits: EncryptedAssertion > EncryptedData (AES-128/192/256-CBC, IV
+// prefix, last-octet padding) whose key is wrapped with RSA-OAEP (SHA-1, MGF1-SHA-1)
+// in an EncryptedKey nested in EncryptedData/KeyInfo or placed as sibling.
+// It returns the plaintext, the content key and the IV.
+func DecryptAssertion(ea *etree.Element, priv *rsa.PrivateKey) (plain, key, iv []byte, err error) {
+	ed := ea.FindElement("./EncryptedData")
+	if ed == nil {
+		if ea.Tag == "EncryptedData" {
+			ed = ea
+		} else {
+			return nil, nil, nil, fmt.Errorf("no EncryptedData")
+		}
+	}
+	ek := ed.FindElement("./KeyInfo/EncryptedKey")
+	if ek == nil {
+		ek = ea.FindElement("./EncryptedKey")
+	}
+	if ek == nil {
+		return nil, nil, nil, fmt.Errorf("no EncryptedKey")
+	}
+	cv := ek.FindElement("./CipherData/CipherValue")
+	if cv == nil {
+		return nil, nil, nil, fmt.Errorf("no key CipherValue")
+	}
+	wrapped, err := base64.StdEncoding.DecodeString(strings.TrimSpace(cv.Text()))
+	if err != nil {
+		return nil, nil, nil, err
+	}
+	key, err = rsa.DecryptOAEP(sha1.New(), nil, priv, wrapped, nil)
+	if err != nil {
+		return nil, nil, nil, fmt.Errorf("key transport: %w", err)
+	}
+	dv := ed.FindElement("./CipherData/CipherValue")
+	if dv == nil {
+		return nil, nil, nil, fmt.Errorf("no data CipherValue")
+	}
+	ct, err := base64.StdEncoding.DecodeString(strings.TrimSpace(dv.Text()))
+	if err != nil {
+		return nil, nil, nil, err
+	}
+	blk, err := aes.NewCipher(key)
+	if err != nil {
+		return nil, nil, nil, err
+	}
+	if len(ct) < 32 || len(ct)%16 != 0 {
+		return nil, nil, nil, fmt.Errorf("cipher value length %d", len(ct))
+	}
+	iv = ct[:16]
+	out := make([]byte, len(ct)-16)
+	cipher.NewCBCDecrypter(blk, iv).CryptBlocks(out, ct[16:])
+	pad := int(out[len(out)-1])
+	if pad < 1 || pad > 16 || pad > len(out) {
+		return nil, nil, nil, fmt.Errorf("bad padding %d", pad)
+	}
+	return out[:len(out)-pad], key, iv, nil
 }
